@@ -105,4 +105,11 @@ PROPERTIES = {
         explanation="variable annotation translator, local-name freshness, run-time value conversion; whole calls by an end-to-end bounded stand-in with graphql-core's variable coercion",
         assumptions=["that dumped JSON coerces to the caller's values is pydantic's and graphql-core's (assumed, sampled by the stand-in)"],
     ),
+    "C04": dict(
+        modules=["contracts.c04_package", "contracts.c04_modules", "contracts.c08_fragments", "contracts.c18_names"],
+        bounded=[_bounded.lazy("contracts.e2e_package", "bounded_packages"), _bounded.lazy("contracts.c08_fragments", "bounded_fragment_order"),
+                 _bounded.lazy("contracts.e2e_fragments", "bounded_scenarios")],
+        explanation="package orchestration (order of steps, reported files), module-level generators (init __all__, enum members), documented refusals; whole packages by an end-to-end bounded stand-in (import of every generated module)",
+        assumptions=["that formatted modules import is autoflake/isort/black/pydantic's (assumed, sampled by the stand-in)"],
+    ),
 }
